@@ -40,17 +40,19 @@ def countWritten : List Write → Option Nat
   | .put k (.cnt n) :: t => if k = cntKey then some n else countWritten t
   | _ :: t => countWritten t
 
-/-- The model's `save`, rendered as the source statements it stands for: the stamp, the writes
-    up to the one that stores the incremented count (so `count++` sits before it), the memory
-    and mirror updates. -/
+/-- The model's `save`, rendered as the source statements it stands for: the writes up to the
+    one that stores the incremented count, with `count++` placed before that one. -/
 def modelSaveEffects (c : Chain) (g : Group) : List String :=
   let ws := saveWrites c.count g
   let txt := ws.map (writeText c.count g none)
-  (if (save c g).last.height = c.count then ["group.GroupHeight = chain.count"] else ["?"]) ++
   txt.take 3 ++
   (if countWritten ws = some (c.count + 1) ∧ (save c g).count = c.count + 1 then ["chain.count++"] else ["?"]) ++
-  txt.drop 3 ++
+  txt.drop 3
+
+/-- In-memory / sqlite statements of `save` the model accounts for (sorted as the translator sorts). -/
+def modelSaveMemory (c : Chain) (g : Group) : List String :=
   (if (save c g).last.id = g.id then ["chain.lastGroup = group"] else ["?"]) ++
+  (if (save c g).last.height = c.count then ["group.GroupHeight = chain.count"] else ["?"]) ++
   (if g.id ∈ (save c g).mirror then ["mysql.InsertGroup group"] else ["?"])
 
 def modelRemoveEffects (c : Chain) (g pre : Group) : List String :=
@@ -58,7 +60,9 @@ def modelRemoveEffects (c : Chain) (g pre : Group) : List String :=
   let txt := ws.map (writeText c.count g (some pre))
   txt.take 3 ++
   (if countWritten ws = some (c.count - 1) ∧ (remove c g).2.count = c.count - 1 then ["chain.count--"] else ["?"]) ++
-  txt.drop 3 ++
+  txt.drop 3
+
+def modelRemoveMemory (c : Chain) (g pre : Group) : List String :=
   (if (remove c g).2.last = pre then ["chain.lastGroup = preGroup"] else ["?"]) ++
   (if g.id ∉ (remove c g).2.mirror then ["mysql.DeleteGroup group.Id"] else ["?"])
 
@@ -70,11 +74,13 @@ def wC : Chain :=
   { disk := [([0xd4], .grp wP), ([0xe5, 0xe6], .grp wG)], count := 5, last := wG, mirror := [[0xe5, 0xe6], [0xd4]] }
 
 /-- `groupChain.save` in the source performs exactly the model's effects, in the model's order. -/
-theorem save_effects_match : saveEffects = modelSaveEffects wC wN := by decide
+theorem save_effects_match :
+    saveEffects = modelSaveEffects wC wN ∧ saveMemory = modelSaveMemory wC wN := by decide
 
 /-- `groupChain.remove` in the source performs exactly the model's effects, in the model's order
     (after the `fix:` commit: `Delete generateKey(chain.count - 1)`). -/
-theorem remove_effects_match : removeEffects = modelRemoveEffects wC wG wP := by decide
+theorem remove_effects_match :
+    removeEffects = modelRemoveEffects wC wG wP ∧ removeMemory = modelRemoveMemory wC wG wP := by decide
 
 /-- `AddGroup`'s guards, in the order `addCheck` evaluates them: already stored → exists;
     consensus check; parent stored; predecessor = last; then `save`. -/
@@ -91,21 +97,21 @@ theorem add_guards_match : addGuards =
 /-- Nobody but `save`, `remove` and start-up writes the group store, `count` or `lastGroup`
     anywhere in package core, and they write exactly this much. -/
 theorem only_known_writers : stateWriters =
-    ["initGroupChain: chain.count = utility.ByteToUInt64(count)",
-     "initGroupChain: chain.lastGroup = lastGroup",
+    ["*groupChain.remove: Delete",
      "*groupChain.remove: Delete",
      "*groupChain.remove: Put",
-     "*groupChain.remove: Delete",
+     "*groupChain.remove: Put",
      "*groupChain.remove: chain.count--",
-     "*groupChain.remove: Put",
      "*groupChain.remove: chain.lastGroup = preGroup",
-     "*groupChain.save: group.GroupHeight = chain.count",
+     "*groupChain.save: Put",
      "*groupChain.save: Put",
      "*groupChain.save: Put",
      "*groupChain.save: Put",
      "*groupChain.save: chain.count++",
-     "*groupChain.save: Put",
-     "*groupChain.save: chain.lastGroup = group"] := by decide
+     "*groupChain.save: chain.lastGroup = group",
+     "*groupChain.save: group.GroupHeight = chain.count",
+     "initGroupChain: chain.count = utility.ByteToUInt64(count)",
+     "initGroupChain: chain.lastGroup = lastGroup"] := by decide
 
 /-- `save` is called by start-up (genesis groups) and `AddGroup` only; `remove` by the fork
     switch (`removeFromCommonAncestor`) only — the operations `Props/C19.lean` covers. -/
